@@ -81,6 +81,7 @@ type c05Park struct {
 type c05Tpt struct {
 	h     *c05W
 	proxy bool
+	caps  int // classes (1 << c05Class) this transport claims; 0: all
 }
 
 func (t *c05Tpt) Dial(ctx context.Context, a ma.Multiaddr, p peer.ID) (transport.CapableConn, error) {
@@ -136,6 +137,9 @@ func (t *c05Tpt) DialWithUpdates(ctx context.Context, a ma.Multiaddr, p peer.ID,
 func (t *c05Tpt) CanDial(a ma.Multiaddr) bool {
 	if _, err := a.ValueForProtocol(ma.P_SCTP); err == nil {
 		return false
+	}
+	if !t.proxy && !isRelayAddr(a) && t.caps != 0 && t.caps&(1<<c05Class(a)) == 0 {
+		return false // a swarm configured with a subset of the transports
 	}
 	return isRelayAddr(a) == t.proxy
 }
@@ -196,6 +200,25 @@ var c05WKinds = []string{
 	"/ip4/9.9.9.9/tcp/%d/p2p/" + c05RelayID + "/p2p-circuit", // relayed
 	"/ip4/1.2.3.4/sctp/%d",                    // no transport: undialable
 	"/ip4/0.0.0.0/tcp/%d",                     // unspecified: filtered out
+	"/ip4/1.2.3.4/tcp/%d/ws",                  // 10: websocket on the ip of kind 0 (same ip:port when given its port)
+	"/ip4/1.2.3.4/udp/%d/quic-v1/webtransport", // 11: webtransport on the ip of kind 2
+}
+
+// the class of an address as filterLowPriorityAddresses sees it: 4 webtransport, 3 quic-v1,
+// 2 ws/wss, 1 tcp, 0 other
+func c05Class(a ma.Multiaddr) int {
+	has := func(p int) bool { _, err := a.ValueForProtocol(p); return err == nil }
+	switch {
+	case has(ma.P_WEBTRANSPORT):
+		return 4
+	case has(ma.P_QUIC_V1):
+		return 3
+	case has(ma.P_WS) || has(ma.P_WSS):
+		return 2
+	case has(ma.P_TCP):
+		return 1
+	}
+	return 0
 }
 
 type c05W struct {
@@ -321,10 +344,14 @@ func (h *c05W) ranker(addrs []ma.Multiaddr) []network.AddrDelay {
 }
 
 func (h *c05W) addr(id int64, kind int) ma.Multiaddr {
+	return h.addrPort(id, kind, 3000+id)
+}
+
+func (h *c05W) addrPort(id int64, kind int, port int64) ma.Multiaddr {
 	if a, ok := h.addrs[id]; ok {
 		return a
 	}
-	a := ma.StringCast(fmt.Sprintf(c05WKinds[kind], 3000+id))
+	a := ma.StringCast(fmt.Sprintf(c05WKinds[kind], port))
 	h.addrs[id] = a
 	h.addrID[string(a.Bytes())] = id
 	return a
